@@ -145,7 +145,10 @@ def gen_calls(gen, inst, rnd, n, temps=None):
             else:
                 calls.append(("zone", (ai, zi), "set_damper_percentage",
                               (rnd.choice([-5, -1, 0, 1, 50, 99, 100, 101, 105,
-                                           rnd.randint(0, 100)]),)))
+                                           rnd.randint(0, 100), rnd.randint(0, 100),
+                                           # out of range by a fraction (a slider's float)
+                                           100.4, 100.9, -0.5, -0.25, 1e9, float("inf"),
+                                           float("-inf")]),)))
     return calls
 
 
